@@ -34,6 +34,10 @@ mod multilinear_brakedown;
 mod multilinear_ligero;
 mod univariate_ligero;
 
+/// Verification hooks (only with `--cfg arkworks_rs_poly_commit_verif` or under Kani).
+#[cfg(any(kani, arkworks_rs_poly_commit_verif))]
+pub mod verif_hooks;
+
 pub use data_structures::{BrakedownPCParams, LigeroPCParams, LinCodePCProof};
 pub use multilinear_brakedown::MultilinearBrakedown;
 pub use multilinear_ligero::MultilinearLigero;
